@@ -622,6 +622,106 @@ async fn stall_case(rep: &mut Report, stalled: usize, vanish: bool) {
   let _ = tokio::time::timeout(Duration::from_secs(12), ctx.term()).await;
 }
 
+/// (resume) a real SUB that stalls for a while (RCVHWM 2, not reading) so that the PUB's sends towards it expire
+/// (finite SNDTIMEO) or are dropped, then reads again: dropping for a subscriber that cannot keep up is PUB's right,
+/// but once it reads again - still connected, still subscribed - it must receive what is published from then on,
+/// and a subscriber that kept up must have received everything, in order, throughout.
+async fn resume_case(rep: &mut Report, tr: Transport, sndtimeo_ms: i32) {
+  let ctx = util::new_ctx();
+  let publ = ctx.socket(SocketType::Pub).unwrap();
+  util::set_i32(&publ, opt::SNDTIMEO, sndtimeo_ms).await;
+  util::set_i32(&publ, opt::SNDHWM, 4).await;
+  let ep = match util::bind_fresh(&publ, tr).await {
+    Ok(e) => e,
+    Err(e) => {
+      rep.inconclusive(format!("bind {e}"));
+      return;
+    }
+  };
+  let mk_sub = |hwm: i32| {
+    let ctx = ctx.clone();
+    let ep = ep.clone();
+    async move {
+      let s = ctx.socket(SocketType::Sub).unwrap();
+      util::set_i32(&s, opt::RCVHWM, hwm).await;
+      util::set_i32(&s, opt::RCVTIMEO, 400).await;
+      s.set_option(opt::SUBSCRIBE, "t").await.unwrap();
+      let _ = s.connect(&ep).await;
+      s
+    }
+  };
+  let slow = mk_sub(2).await;
+  let fast = mk_sub(10_000).await;
+  // both subscriptions live?
+  let mut live = (false, false);
+  for k in 0..60 {
+    let _ = publ.send(util::msg(format!("t-warm-{}", k).into_bytes(), false)).await;
+    if !live.0 {
+      live.0 = tokio::time::timeout(Duration::from_millis(60), slow.recv()).await.map_or(false, |r| r.is_ok());
+    }
+    if !live.1 {
+      live.1 = tokio::time::timeout(Duration::from_millis(60), fast.recv()).await.map_or(false, |r| r.is_ok());
+    }
+    if live.0 && live.1 {
+      break;
+    }
+  }
+  if !(live.0 && live.1) {
+    rep.inconclusive(format!("resume: subscriptions did not become live over {}", tr.name()));
+    let _ = tokio::time::timeout(Duration::from_secs(10), ctx.term()).await;
+    return;
+  }
+  // drain warm-up leftovers
+  while let Ok(Ok(_)) = tokio::time::timeout(Duration::from_millis(100), slow.recv()).await {}
+  while let Ok(Ok(_)) = tokio::time::timeout(Duration::from_millis(100), fast.recv()).await {}
+  // phase 1: the slow subscriber does not read; publish a burst (64 KiB each over stream transports so that kernel buffers fill)
+  let big = if tr == Transport::Inproc { 100 } else { 64 * 1024 };
+  let mut published: Vec<Vec<u8>> = vec![];
+  let mut slowest = Duration::ZERO;
+  for k in 0..60 {
+    let mut body = format!("t-burst-{:03}-", k).into_bytes();
+    body.resize(big, b'.');
+    let t = Instant::now();
+    let _ = publ.send(util::msg(body.clone(), false)).await;
+    slowest = slowest.max(t.elapsed());
+    published.push(body);
+  }
+  // phase 2: it reads again
+  let mut slow_burst = 0;
+  while let Ok(Ok(_)) = tokio::time::timeout(Duration::from_millis(300), slow.recv()).await {
+    slow_burst += 1;
+  }
+  // phase 3: ten more, one at a time, with the slow subscriber reading
+  let mut slow_after = 0;
+  for k in 0..10 {
+    let body = format!("t-after-{:02}", k).into_bytes();
+    let _ = publ.send(util::msg(body.clone(), false)).await;
+    published.push(body.clone());
+    if let Ok(Ok(m)) = tokio::time::timeout(util::scaled(Duration::from_millis(800)), slow.recv()).await {
+      if m.data() == Some(&body[..]) {
+        slow_after += 1;
+      }
+    }
+  }
+  // the subscriber that kept up
+  let mut fast_got: Vec<Vec<u8>> = vec![];
+  while let Ok(Ok(m)) = tokio::time::timeout(Duration::from_millis(400), fast.recv()).await {
+    fast_got.push(m.data().unwrap_or(&[]).to_vec());
+  }
+  rep.case(&("resume", tr, sndtimeo_ms), true);
+  rep.count("resume_slow_subscriber_got_of_burst", slow_burst);
+  rep.max("max:resume_slowest_publish_ms", slowest.as_millis() as u64);
+  let cfg = format!("PUB (SNDTIMEO {} ms, SNDHWM 4) over {} with a SUB that stalls (RCVHWM 2) during a burst of 60 and then reads again, and a SUB that keeps up", sndtimeo_ms, tr.name());
+  if slow_after < 10 {
+    rep.violation(format!("subscriber_cut_off_after_stall|{}", if tr == Transport::Inproc { "inproc" } else { "stream" }), format!("{}: after it resumed reading the stalled subscriber received {} of 10 newly published matching messages ({} of the burst)", cfg, slow_after, slow_burst), json!({"config": cfg, "after": slow_after, "of_burst": slow_burst}));
+  }
+  if fast_got != published {
+    let first_diff = fast_got.iter().zip(published.iter()).position(|(a, b)| a != b).unwrap_or(fast_got.len().min(published.len()));
+    rep.violation(format!("keeping_up_subscriber_missed_messages|{}", if tr == Transport::Inproc { "inproc" } else { "stream" }), format!("{}: the subscriber that kept up received {} of {} messages (first difference at {})", cfg, fast_got.len(), published.len(), first_diff), json!({"config": cfg}));
+  }
+  let _ = tokio::time::timeout(Duration::from_secs(10), ctx.term()).await;
+}
+
 fn main() {
   let args = Args::parse();
   util::install_panic_watch();
@@ -662,6 +762,15 @@ fn main() {
         let per_pub = if args.thorough() { 400 } else { 150 };
         let ok = util::guarded(&rt, contend_case(&mut rep, &mut rng, tr, receivers, 1 + i % 3, 1 + (i / 2) % 3, per_pub));
         let _ = ok;
+      }
+      util::cleanup_ipc_dir();
+    }
+    Some("resume") => {
+      let rt = util::runtime(2);
+      for (i, (tr, to)) in [(Transport::Inproc, 30), (Transport::Tcp, 30), (Transport::Ipc, 100), (Transport::Inproc, 200), (Transport::Tcp, 0)].iter().enumerate() {
+        if args.mine(i) {
+          rt.block_on(resume_case(&mut rep, *tr, *to));
+        }
       }
       util::cleanup_ipc_dir();
     }
